@@ -302,6 +302,87 @@ func propC12Sequential(t *rapid.T) {
 	}
 }
 
+// gatedSink blocks inside Write/Sync while the gate is closed.
+type gatedSink struct {
+	opSink
+	gate    chan struct{}
+	entered chan string
+	block   string // "write" or "sync"
+	armed   bool
+}
+
+func (g *gatedSink) Write(p []byte) (int, error) {
+	if g.armed && g.block == "write" {
+		g.armed = false
+		g.entered <- "write"
+		<-g.gate
+	}
+	return g.opSink.Write(p)
+}
+
+func (g *gatedSink) Sync() error {
+	if g.armed && g.block == "sync" {
+		g.armed = false
+		g.entered <- "sync"
+		<-g.gate
+	}
+	return g.opSink.Sync()
+}
+
+// propC12TickWhileBusy: a flush tick that arrives while another goroutine is
+// inside a (slow) sink call must still be processed: once the call returns,
+// everything accepted before the tick is flushed and the sink synced, without
+// any further tick, Sync or Stop.
+func propC12TickWhileBusy(t *rapid.T) {
+	size := rapid.SampledFrom([]int{4, 16, 64}).Draw(t, "size")
+	block := rapid.SampledFrom([]string{"write", "sync"}).Draw(t, "blockedCall")
+	clk := &handClock{}
+	sink := &gatedSink{gate: make(chan struct{}), entered: make(chan string, 1), block: block}
+	bws := &zapcore.BufferedWriteSyncer{WS: sink, Size: size, FlushInterval: time.Second, Clock: clk}
+	defer bws.Stop()
+	n1 := rapid.IntRange(1, size).Draw(t, "firstLen")
+	if k, err := bws.Write(c12Payload(0, n1)); k != n1 || err != nil {
+		t.Fatalf("Write = (%d, %v)", k, err)
+	}
+	sink.armed = true
+	done := make(chan struct{})
+	go func() {
+		defer close(done)
+		if block == "write" {
+			_, _ = bws.Write(c12Payload(1, size+1)) // does not fit: flushes the buffer -> sink.Write blocks, lock held
+		} else {
+			_ = bws.Sync() // flush, then sink.Sync blocks with the lock held
+		}
+	}()
+	select {
+	case <-sink.entered:
+	case <-time.After(3 * time.Second):
+		t.Fatalf("VERIF-INCONCLUSIVE the blocking sink call was not reached")
+	}
+	// more data accepted? (only possible without the lock: none) -> deliver the tick now
+	select {
+	case clk.channel() <- time.Unix(1, 0):
+	case <-time.After(3 * time.Second):
+		t.Fatalf("VERIF-DEADLOCK flush loop did not take the tick while a sink call was in flight")
+	}
+	_, _, syncsBefore, _ := sink.state()
+	close(sink.gate)
+	<-done
+	want := n1
+	if block == "write" {
+		want += size + 1
+	}
+	okc := waitFor(func() bool {
+		total, _, syncs, last := sink.state()
+		return total == want && last == "sync" && (block == "sync" && syncs >= syncsBefore+2 || block == "write" && syncs >= syncsBefore+1)
+	}, 3*time.Second)
+	if !okc {
+		total, _, syncs, last := sink.state()
+		t.Fatalf("a tick taken while a sink %s was in flight was never processed: %d of %d accepted bytes in the sink, syncs %d -> %d, last op %s (size %d)", block, total, want, syncsBefore, syncs, last, size)
+	}
+	statCase("C12", true, fmt.Sprintf("tickbusy|%d|%s|%d", size, block, n1), "tick while a sink call holds the lock")
+}
+
 // ---- concurrent
 
 func propC12Concurrent(t *rapid.T) {
@@ -636,6 +717,7 @@ func propC12Crash(t *rapid.T) {
 func TestC12Sequential(t *testing.T) { rapid.Check(t, propC12Sequential) }
 func TestC12Concurrent(t *testing.T) { rapid.Check(t, propC12Concurrent) }
 func TestC12Crash(t *testing.T)      { rapid.Check(t, propC12Crash) }
+func TestC12TickBusy(t *testing.T)   { rapid.Check(t, propC12TickWhileBusy) }
 
 func TestRegressC12(t *testing.T) {
 	sink := &opSink{}
